@@ -12,10 +12,12 @@ import (
 	"fmt"
 	"net"
 	"net/http"
+	"os"
 	"path/filepath"
 	"runtime"
 	"strings"
 	"sync"
+	"syscall"
 	"testing"
 	"time"
 
@@ -80,6 +82,7 @@ type dialRec struct {
 	addrs     []string
 	tr        *Tracer // non-nil: log every dial as it happens (concurrent runs)
 	blackhole string  // dials to this address hang until their context ends
+	n         int     // dials so far
 }
 
 func (d *dialRec) dial(ctx context.Context, network, addr string) (net.Conn, error) {
@@ -93,6 +96,22 @@ func (d *dialRec) dial(ctx context.Context, network, addr string) (net.Conn, err
 	if hole { // a peer that never answers: the dial ends when its context does
 		<-ctx.Done()
 		return nil, ctx.Err()
+	}
+	// no dial connects; why not varies the way it does on a real network (a transient failure of one address says nothing
+	// about the next attempt)
+	d.mu.Lock()
+	d.n++
+	n := d.n
+	d.mu.Unlock()
+	switch n % 5 {
+	case 1:
+		return nil, &net.OpError{Op: "dial", Net: network, Err: os.NewSyscallError("connect", syscall.ECONNREFUSED)}
+	case 2:
+		return nil, &net.OpError{Op: "dial", Net: network, Err: os.NewSyscallError("connect", syscall.ENETUNREACH)}
+	case 3:
+		return nil, &net.OpError{Op: "dial", Net: network, Err: os.NewSyscallError("connect", syscall.EHOSTUNREACH)}
+	case 4:
+		return nil, &net.OpError{Op: "dial", Net: network, Err: os.NewSyscallError("connect", syscall.ETIMEDOUT)}
 	}
 	return nil, errors.New("recorded, not connected")
 }
